@@ -28,6 +28,10 @@ RULES = {
              "condition skips or repeats entries across a rotation",
     "C01.6": "no entry is skipped because the batch went on after a budget stop (= C03.4): once the parser has given up an entry for the byte budget, nothing more is pushed in that "
              "call",
+    "C01.8": "the two halves of a cursor move together: the batch read commits (chain index, offset) and (tail block id, tail offset) from pairs of variables it maintains while it "
+             "parses; wherever the function assigns one half of a pair, the other half is assigned in the same basic block, or every way on from that assignment to the function's "
+             "return passes an assignment of the other half. A half that is set once per planned range while the other is set per parsed entry leaves (next block, previous "
+             "block's offset) behind when a range yields no entry: the next read starts in the middle of the next block - or past its entries",
     "C01.7": "a reader leaves a sealed block only at its end: every step to the next block of the chain (cur_block_idx := idx + 1 in read_next, the planner's chain index += 1 in "
              "batch_read_for_topic) is taken on an edge that establishes `offset >= block.used`, where offset is the cursor's own offset (or the planner's copy of it), in a consuming "
              "read_next that offset plus the size of the entry just read and returned, or - in the planner - the end of the range it has just planned (a planner that steps on "
@@ -511,6 +515,94 @@ def check_block_left_at_end(ctx, facts):
     ctx.floor("C01.7", "steps to the next sealed block", n, 2)
 
 
+CURSOR_PAIRS = (("cur_block_idx", "cur_block_offset"), ("tail_block_id", "tail_offset"))
+
+
+def check_cursor_pairs(ctx, facts, rid="C01.8"):
+    b = facts.body("walrus_read::batch_read_for_topic")
+    ctx.saw_body(b)
+    F = common.short_fn(b.name)
+    eff = Effects(facts)
+    def has_cursor_store(cb):
+        return any(st["place"]["p"] and isinstance(st["place"]["p"][-1], dict) and str(st["place"]["p"][-1].get("o", "")).endswith("ColReaderInfo")
+                   and st["place"]["p"][-1].get("n") in ("cur_block_idx", "cur_block_offset", "tail_block_id", "tail_offset") for site, st in cb.assigns())
+    clos = [c for c in [b] + list(facts.closures_of(b, recursive=False)) if has_cursor_store(c)]
+    if not clos:
+        ctx.anchor_missing(rid, "the commit of the cursor (stores to ColReaderInfo) in " + F)
+        return
+    n_pairs = 0
+    seen_pairs = set()
+    for clo in clos:
+        capname = {}
+        for vd in clo.j["var_debug"]:
+            v = vd.get("value") or {}
+            if v.get("l") == 1 and v.get("p"):
+                for e in v["p"]:
+                    if isinstance(e, dict) and "f" in e:
+                        capname[e["f"]] = vd["name"]
+                        break
+
+        def source(op):
+            """name of the captured variable an operand is a copy of (possibly a field / cast of it), or None"""
+            cur = op_place(op)
+            for _ in range(8):
+                if cur is None:
+                    return None
+                if clo.kind != "Closure":
+                    if clo.local_name(cur["l"]) and cur["l"] > clo.arg_count:
+                        return clo.local_name(cur["l"])
+                elif cur["l"] == 1 and cur["p"]:
+                    k = next((e["f"] for e in cur["p"] if isinstance(e, dict) and "f" in e), None)
+                    return capname.get(k)
+                sd = clo.single_def(cur["l"])
+                if not sd or sd[1] != "assign" or sd[2]["rv"]["k"] not in ("use", "cast"):
+                    return None
+                cur = op_place(sd[2]["rv"]["op"])
+            return None
+        stores = {}
+        for site, st in clo.assigns():
+            pl = st["place"]
+            if pl["p"] and isinstance(pl["p"][-1], dict) and str(pl["p"][-1].get("o", "")).endswith("ColReaderInfo") and st["rv"]["k"] in ("use", "cast"):
+                stores.setdefault(pl["p"][-1].get("n"), []).append((site, source(st["rv"]["op"])))
+        for fa, fb in CURSOR_PAIRS:
+            for sa, na in stores.get(fa, []):
+                # the partner store of the same arm
+                partner = [(sb, nb) for sb, nb in stores.get(fb, []) if sb.bb == sa.bb or clo.dominates(sa.bb, sb.bb) or clo.dominates(sb.bb, sa.bb)]
+                for sb, nb in partner:
+                    if na is None or nb is None or na == nb:
+                        continue
+                    la = next((l for l in range(len(b.locals)) if b.local_name(l) == na), None)
+                    lb = next((l for l in range(len(b.locals)) if b.local_name(l) == nb), None)
+                    if la is None or lb is None:
+                        continue
+                    da = [s_ for s_, k_, n_ in b.defs.get(la, []) if k_ == "assign"]
+                    db = [s_ for s_, k_, n_ in b.defs.get(lb, []) if k_ == "assign"]
+                    if (na, nb) in seen_pairs:
+                        continue
+                    seen_pairs.add((na, nb))
+                    if len(b.unique_defs(la)) < 2 or len(b.unique_defs(lb)) < 2:
+                        continue        # bound once (a `let` of the value at hand), not a variable that is maintained while parsing
+                    n_pairs += 1
+                    bad = None
+                    for mine, other, nm, onm in ((da, db, na, nb), (db, da, nb, na)):
+                        obbs = {o.bb for o in other}
+                        for s_ in mine:
+                            if s_.bb in obbs:
+                                continue
+                            if b.must_pass([s_.bb], b.return_blocks(), obbs):
+                                continue
+                            bad = bad or (s_, nm, onm)
+                    if bad:
+                        ctx.violate(rid, F, "cursor-halves-assigned-apart:%s/%s" % (fa, fb), b.relfile, bad[0].line,
+                                    "`%s` is assigned at line %s without `%s` being assigned with it (not in the same block, and not on every way on to the return): the commit stores "
+                                    "%s from one and %s from the other, so a planned range that yields no entry leaves a position made of one block's index and another block's offset"
+                                    % (bad[1], bad[0].line, bad[2], fa, fb))
+                    else:
+                        ctx.ok(rid, F, "`%s` and `%s` (committed as %s / %s) are always assigned together" % (na, nb, fa, fb), b.relfile, sa.line, "%d + %d assignments" % (len(da), len(db)))
+    if n_pairs == 0:
+        ctx.ok(rid, F, "the commit takes each cursor pair from one variable (or from constants): nothing to pair", b.relfile, b.line)
+
+
 def run(ctx):
     for k, v in RULES.items():
         ctx.rule(k, v)
@@ -525,6 +617,7 @@ def run(ctx):
     from .c03 import check_budget_stop_ends_batch
     check_budget_stop_ends_batch(ctx, facts, rid="C01.6")
     check_block_left_at_end(ctx, facts)
+    check_cursor_pairs(ctx, facts)
     ctx.assume("NOT decided: ordering and once-only delivery across blocks, the planner/budget interaction (e.g. a budget that ends inside a sealed block while the tail holds entries), rotation arithmetic")
     return {
         "explanation": "four structural clauses on MIR: must-pass-through between the per-entry counter and the push into the returned vector (with offset-addressed-only edges derived "
